@@ -1705,6 +1705,7 @@ static void doCall(State& s, const CallInst* ci, const Function* F, std::vector<
   }
   if (n == "__verif_cover") { s.covers.push_back((int)sx(args[0])); return; }
   if (n == "__verif_observe") { s.observes.push_back(args[0]); return; }
+  if (n == "__verif_concretize") { uint64_t v = concretize(s, args[0], "value (explicit case split)"); ret(conc(64, v)); return; }
   if (n == "__verif_expect_throw") { s.expectThrow = args[0].c != 0; return; }
   if (n == "__verif_assert_fail") fatalViolation(s, "assert", (long)sx(args[0]));
   if (n == "__verif_fail") fatalViolation(s, "model", (long)sx(args[0]));
@@ -1751,6 +1752,7 @@ static void doCall(State& s, const CallInst* ci, const Function* F, std::vector<
     return;
   }
   if (n == "__cxa_atexit") { ret(conc(32, 0)); return; }
+  if (n == "time") { if (args[0].c) storeInt(s, concPtr(s, args[0]), conc(64, 1700000000)); ret(conc(64, 1700000000)); return; }
   if (n == "__cxa_guard_acquire") {
     uint64_t g = concPtr(s, args[0]);
     Val b = loadInt(s, g, 8);
